@@ -1,6 +1,6 @@
 """C02 - self-calibration (TRL, unknown / correlated parameters).
 
-1. Coq: coq/SelfCal/{Trl,Auto}*.v, NullGuards.v and Properties_C02.v are rebuilt (obligations).
+1. Coq: coq/SelfCal/{Trl,TrlTerms,Auto,Dispatch,Guard}*.v and Properties_C02.v are rebuilt (obligations).
 2. Ties (every run):
    * TRL model: the extracted trl_solve (coefficients of the two quadratics and the selection
      rule over Q[i], csqrt supplied) against the values vnacal_new_solve writes back through
@@ -8,9 +8,15 @@
    * AutoLoop model: the per-iteration trajectory of _vnacal_new_solve_auto (white-box build of
      the unmodified source with its DEBUG prints tapped) against the extracted model driven by
      the observed residual / step norms; number of loop-body entries against limit + 1;
-   * NullGuards: which form of _vnacal_new_solve_update_s_matrices the tree has (sanitizer run
-     of a single-reflect + unknown-parameter calibration);
-   * DispatchModel: which solver runs for TRL-shaped inputs (observed through the solver taps)
+   * TrlTermsModel: the 10 x 7 coefficient matrix and right-hand side _vnacal_new_solve_trl hands to
+     _vnacommon_qrsolve (white-box build of the unmodified source, solver tapped) against the
+     extracted trl_rows_t / trl_rows_u on the same measurements and the solved l, r;
+   * GuardModel: _vnacal_new_solve_update_s_matrices run on the real solve state of calibrations
+     with absent, known and unknown S cells (markers in, markers out) against the extracted
+     update_s_matrices on the same pointer shapes; sanitizer runs of the directed scenarios;
+   * DispatchModel: which solver runs for TRL-shaped inputs and for 2x2 calibrations with three
+     standards, two unknowns and single / double reflects (absent S cells) in all six orders
+     (observed through the solver taps, under the sanitizers)
      against the extracted classify_standard / is_trl / dispatch; writeback_exact through
      re-solve histories (same handles, several vnacal_new_t, grids of equal and different length);
      the starting vector of the iteration at every frequency against the caller's guesses.
@@ -30,9 +36,10 @@ from fractions import Fraction
 import vplib
 import selfcal_gen as G
 
-VFILES = ["SelfCal/TrlModel.v", "SelfCal/TrlProofs.v", "SelfCal/TrlQI.v", "SelfCal/AutoLoop.v",
-          "SelfCal/AutoProofs.v", "SelfCal/AutoReplay.v", "SelfCal/NullGuards.v", "SelfCal/DispatchModel.v",
-          "SelfCal/DispatchProofs.v", "Properties_C02.v"]
+VFILES = ["SelfCal/TrlModel.v", "SelfCal/TrlProofs.v", "SelfCal/TrlQI.v", "SelfCal/TrlTermsModel.v",
+          "SelfCal/TrlTermsProofs.v", "SelfCal/TrlTermsQI.v", "SelfCal/AutoLoop.v",
+          "SelfCal/AutoProofs.v", "SelfCal/AutoReplay.v", "SelfCal/GuardModel.v", "SelfCal/GuardProofs.v",
+          "SelfCal/DispatchModel.v", "SelfCal/DispatchProofs.v", "Properties_C02.v"]
 
 RADIUS = 0.1            # stated radius of the guesses (relative to max(|truth|, 0.2))
 TOLS = [1e-4, 1e-6, 1e-8, 1e-10, 1e-12]
@@ -108,7 +115,7 @@ def check_common(rec, sc, r, where):
 
 
 # ------------------------------------------------------------------------------------------ (a) TRL
-def part_trl(ctx, rec, exe, drv, ntrl, ntie):
+def part_trl(ctx, rec, exe, drv, ntrl, ntie, wb=None):
     scs = []
     for typ in G.EIGHT:
         for k in range(ntrl):
@@ -190,6 +197,7 @@ def part_trl(ctx, rec, exe, drv, ntrl, ntie):
                 cfrac(q(disc)), cfrac(q(cmath.sqrt(disc))), cfrac(q(nd)), cfrac(q(cmath.sqrt(nd)))))
             model_cases.append((sc, r, f))
     ctx.extra["trl_worst_relative_error"] = worst
+    rows_ok, rows_detail = part_trl_rows(ctx, rec, wb, drv, [c for c in model_cases], res) if wb else (True, "")
     # run the extracted model
     rc, out, err = vplib.sh([drv], input="\n".join(model_lines) + "\n", timeout=600)
     lines = [x for x in out.splitlines() if x.startswith("trl ")]
@@ -213,7 +221,78 @@ def part_trl(ctx, rec, exe, drv, ntrl, ntie):
                     ctx._trl_tie_case = (sc, r, f, ml_, mr_, cl, cr)
         tie_ok = nbad == 0
     ctx.obligation("tie:trl_model_vs_solver", tie_ok, detail)
-    return tie_ok, detail
+    return tie_ok and rows_ok, detail or rows_detail
+
+
+def part_trl_rows(ctx, rec, wb, drv, cases, res):
+    """tie:trl_linear_system: A (10 x 7) and b as handed to _vnacommon_qrsolve by the unmodified
+    _vnacal_new_solve_trl (harness/selfcal_wb_trl.c) vs the extracted trl_rows_t / trl_rows_u on the
+    solver's view of the same (grid-quantised) measurements and the l, r the solver stored"""
+    ok, detail = True, ""
+    lines, todo = [], []
+    for (sc, r, f) in cases:
+        if f != 0 or not r["solve"] or r["solve"][0]["rc"] != 0 or "l" not in r["params"] or "r" not in r["params"]:
+            continue
+        sc2_lines = [l for l in sc.lines if l != "solve"]
+        k = sc2_lines.index([l for l in sc2_lines if l.startswith(("getparam", "apply"))][0])
+        text = "\n".join(sc2_lines[:k] + ["wb 0 0 1", "solve"] + sc2_lines[k:] + ["end"]) + "\n"
+        rc, out, err = vplib.sh([wb], input=text, timeout=120, env=G.run_env(ctx))
+        if rc != 0:
+            sig = vplib.asan_signature(err) or {"kind": "fault", "error": "exit %d" % rc, "function": None}
+            rec.add(sig, "white-box run of the TRL path failed (%s): %s" % (sc.sid, err[-300:]), sc, {"stderr": err})
+            ok, detail = False, detail or "white-box harness failed on %s" % sc.sid
+            continue
+        wres, _ = G.parse_output(out)
+        wr = wres.get(sc.sid, {})
+        _, _, _, mats = G.parse_wb(out)
+        a = [m for m in mats if m[0] == "A"]
+        b = [m for m in mats if m[0] == "b"]
+        if not a or not b or "l" not in wr.get("params", {}):
+            ok, detail = False, detail or "%s: no coefficient matrix dumped by the TRL path" % sc.sid
+            continue
+        mt, mr, ml = sc.trl_meas["T"][0], sc.trl_meas["R"][0], sc.trl_meas["L"][0]
+        if sc.typ in ("TE10", "UE10"):
+            l12, l21 = mr[0][1], mr[1][0]
+            mt = [[mt[0][0], mt[0][1] - l12], [mt[1][0] - l21, mt[1][1]]]
+            ml = [[ml[0][0], ml[0][1] - l12], [ml[1][0] - l21, ml[1][1]]]
+            mr = [[mr[0][0], 0j], [0j, mr[1][1]]]
+        flat = lambda m: " ".join(cfrac(m[i][j]) for i in range(2) for j in range(2))
+        lv, rv = wr["params"]["l"][0][0], wr["params"]["r"][0][0]
+        lines.append("trlrows %s %s %s %s %s %s %s" % ("T" if sc.typ in ("T8", "TE10") else "U", sc.meta["order"],
+                                                        flat(mt), flat(mr), flat(ml), cfrac(lv), cfrac(rv)))
+        todo.append((sc, a[0], b[0]))
+    rc, out, err = vplib.sh([drv], input="\n".join(lines) + "\n", timeout=300)
+    mlines = [x.split()[1:] for x in out.splitlines() if x.startswith("trlrows ")]
+    if rc != 0 or len(mlines) != len(todo):
+        ok, detail = False, detail or "model driver failed: %s" % err[-200:]
+    else:
+        for p, (sc, a, b) in zip(mlines, todo):
+            nrows = int(p[0])
+            v = [float(Fraction(x)) for x in p[1:]]
+            want = [[complex(v[(i * 8 + j) * 2], v[(i * 8 + j) * 2 + 1]) for j in range(8)] for i in range(nrows)]
+            ctx.traces_validated += 1
+            ctx.count(("trlrows", sc.sid))
+            why = None
+            if a[1] != nrows or a[2] != 7 or b[1] != nrows:
+                why = "%s: solver matrix %dx%d, right-hand side %d; model %d rows x 7" % (sc.sid, a[1], a[2], b[1], nrows)
+            else:
+                for i in range(nrows):
+                    got = a[3][i * 7:(i + 1) * 7] + [b[3][i]]
+                    for j in range(8):
+                        if abs(got[j] - want[i][j]) > 1e-12 * max(1.0, abs(want[i][j])):
+                            why = ("%s (%s, order %s): row %d column %d of the system handed to qrsolve is %r, the model of "
+                                   "the equations says %r" % (sc.sid, sc.typ, sc.meta["order"], i, j, got[j], want[i][j]))
+                            break
+                    if why:
+                        break
+            if why:
+                ok = False
+                if not detail:
+                    detail = why
+                    rec.add({"kind": "disagreement", "op": "_vnacal_new_solve_trl", "class": "linear system"},
+                            "TRL linear system: " + why, sc, None)
+    ctx.obligation("tie:trl_linear_system_vs_TrlTermsModel", ok, detail)
+    return ok, detail
 
 
 # ------------------------------------------------------------------------------------------ (b)(d) LM
@@ -664,6 +743,14 @@ def part_dispatch(ctx, rec, wb, drv, reps):
         for typ in list(G.EIGHT) + (["T16", "E12"] if rep == 0 else []):
             for v in G.TRL_VARIANTS:
                 scs.append(G.build_trl_shaped(ctx.rng, "shape_%d_%s_%s" % (rep, typ, v), typ, v))
+    # single / double reflects (absent S cells), exactly three standards and two unknowns, 2x2,
+    # every 8-term type, ALL six orders of the standards
+    import itertools
+    for rep in range(reps):
+        for typ in G.EIGHT:
+            for v in G.TRL_PARTIAL_VARIANTS:
+                for oi, order in enumerate(itertools.permutations(range(3))):
+                    scs.append(G.build_trl_partial(ctx.rng, "partial_%d_%s_%s_%d" % (rep, typ, v, oi), typ, v, order))
     lines, cases = [], []
     ok, detail = True, ""
     for sc in scs:
@@ -678,8 +765,32 @@ def part_dispatch(ctx, rec, wb, drv, reps):
             r["crash"] = ({"kind": "timeout", "error": "timeout", "function": None} if rc in (124, -14) else
                           (vplib.asan_signature(err) or {"kind": "fault", "error": "exit %d" % rc, "function": None}))
             r["stderr"] = err[-2000:]
-        s = check_common(rec, sc, r, "TRL-shaped " + sc.meta["variant"])
-        ctx.count(("dispatch", sc.sid))
+        partial = sc.meta.get("family") == "trl_partial"
+        if partial:
+            # the solve may legitimately fail (too few equations); what is checked is: no fault,
+            # documented error discipline, and the solver path
+            cs = crash_sig(r)
+            if cs is not None:
+                rec.add({"kind": cs.get("kind", "fault"), "error": cs.get("error"), "function": cs.get("function"),
+                         "class": "partial S matrix in a TRL-sized calibration"},
+                        "2x2 %s, three standards %s (order %s), two unknowns: vnacal_new_solve faults in %s: %s"
+                        % (sc.typ, sc.std_cells, sc.meta["order"], cs.get("function"), cs.get("error")), sc, r)
+                ctx.count(("dispatch", sc.sid))
+                ok = False
+                if not detail:
+                    detail = "%s: fault in %s, the model of the dispatch says no fault" % (sc.sid, cs.get("function"))
+                continue
+            s = r["solve"][0] if r["solve"] else None
+            ctx.count(("dispatch", sc.sid))
+            if s is None:
+                rec.add({"kind": "harness", "where": "partial"}, "harness produced no solve record: %s" % r.get("err"), sc, r)
+                continue
+            if s["rc"] == 0 and s["cb"] > 0:
+                rec.add({"kind": "error_discipline", "where": "error reported, success returned"},
+                        "vnacal_new_solve reported an error (%s) but returned 0" % s.get("msg"), sc, r)
+        else:
+            s = check_common(rec, sc, r, "TRL-shaped " + sc.meta["variant"])
+            ctx.count(("dispatch", sc.sid))
         if s is None:
             continue
         msg = s.get("msg", "")
@@ -687,11 +798,15 @@ def part_dispatch(ctx, rec, wb, drv, reps):
             path = "auto"           # (solve_auto's own pre-check fails before the first QR)
         elif "wb qrsolve" in out or "wb mldivide" in out or "insufficient_number" in msg:
             path = "simple"
-        else:
+        elif "wb trlsolve" in out or "unknown_line_parameter" in msg or "unknown_reflect_parameter" in msg:
             path = "trl"
+        else:
+            path = "none"           # no solver was reached
         lines.append("dispatch %s 2 2 %s %s %d %d %s" % (sc.typ, s["unk"], s["corr"], 1 if sc.meta["m_error"] else 0,
                                                          len(sc.std_cells), " ".join(" ".join(c) for c in sc.std_cells)))
         cases.append((sc, r, path))
+        if partial:
+            continue
         if s["rc"] == 0 and sc.meta["variant"] != "reflect_two_unknowns" and sc.typ in G.EIGHT:
             # (reflect_two_unknowns is not identifiable; three or four 2-port standards do not determine T16 / E12)
             pe, de = G.param_error(sc, r), G.dut_error(sc, r)
@@ -721,6 +836,51 @@ def part_dispatch(ctx, rec, wb, drv, reps):
                         % (sc.std_cells, sc.meta["variant"], path, want), sc, r)
     ctx.obligation("tie:solver_dispatch_vs_DispatchModel", ok, detail)
     return ok
+
+# ------------------------------------------------------------------------------------------ checked-memory walk
+def part_guard(ctx, rec, wb, drv, nextra):
+    """tie:update_s_matrices_vs_GuardModel: the unmodified _vnacal_new_solve_update_s_matrices on the
+    real solve state (markers in the value matrices and in p_vector) vs the extracted
+    GuardModel.update_s_matrices on the same pointer shapes (absent / known / unknown cells)"""
+    rng = ctx.rng
+    scs = [G.build_partial_s_unknown(rng, "g_T8", "T8"), G.build_partial_s_unknown(rng, "g_U8_3", "U8", n=3),
+           G.build_partial_s_unknown(rng, "g_E12", "E12", nf=2), G.build_partial_s_unknown(rng, "g_TE10", "TE10"),
+           G.build_partial_s_unknown(rng, "g_T16", "T16"), G.build_partial_s_unknown(rng, "g_UE14_3", "UE14", n=3),
+           G.build_trl_like_single(rng, "g_trl_like", "UE10"),
+           G.build_trl_partial(rng, "g_partial", "T8", "single2_double_through", (0, 1, 2)),
+           G.build_trl(rng, "g_trl", "U8", nf=2)]
+    for k in range(nextra):
+        typ = rng.choice(G.TYPES)
+        n = rng.choice([1, 2]) if typ in ("T16", "U16") else rng.choice([1, 2, 3])
+        scs.append(G.build_general(rng, "g_gen_%d" % k, typ, n, rng.choice([1, 2]), rng.choice([1, 2, 3]), rng.choice([0, 1])))
+    ok, detail = True, ""
+    tot = {"absent_cells": 0, "unknown_cells": 0}
+    for sc in scs:
+        g = G.guard_compare(ctx, wb, drv, sc)
+        ctx.count(("guard", sc.sid))
+        if g["crash"] is not None:
+            cs = g["crash"]
+            rec.add({"kind": cs.get("kind", "fault"), "error": cs.get("error"), "function": cs.get("function")},
+                    "sanitizer fault in %s while walking the solve state of %s: %s" % (cs.get("function"), sc.sid, cs.get("error")),
+                    sc, {"stderr": g["stderr"]})
+            ok, detail = False, detail or "%s: fault in %s" % (sc.sid, cs.get("function"))
+            continue
+        ctx.traces_validated += 1
+        for k in tot:
+            tot[k] += g["stats"].get(k, 0)
+        sok, sdet = g["s"]
+        if not sok:
+            ok = False
+            if not detail:
+                detail = sdet
+                rec.add({"kind": "disagreement", "op": "_vnacal_new_solve_update_s_matrices", "class": "cells written"},
+                        "update_s_matrices and its checked-memory model disagree: " + sdet, sc, None)
+    ctx.extra["update_s_walk"] = dict(tot, scenarios=len(scs))
+    if tot["absent_cells"] == 0 or tot["unknown_cells"] == 0:
+        ok, detail = False, detail or "the scenarios exercised no absent / no unknown cell"
+    ctx.obligation("tie:update_s_matrices_vs_GuardModel", ok, detail)
+    return ok
+
 
 # ------------------------------------------------------------------------------------------ directed
 def part_directed(ctx, rec, exe):
@@ -753,13 +913,11 @@ def part_directed(ctx, rec, exe):
             if pe is None or pe > 1e-6:
                 rec.add({"kind": "lm_param_error", "type": sc.typ, "weighted": False, "family": "correlated"},
                         "exactly determined calibration with a correlated parameter: wrong result %s" % pe, sc, r)
-    # NullGuards tie: which form of update_s_matrices is in the tree
-    ctx.extra["update_s_matrices_reads_before_null_test"] = early_read
-    ctx.obligation("tie:update_s_matrices_form", early_read is not None,
+    # tested only (sanitizers): the directed single-reflect + unknown scenarios ran; a fault in
+    # update_s_matrices has been reported as a violation by check_common above
+    ctx.extra["update_s_matrices_faulted_on_absent_cell"] = early_read
+    ctx.obligation("tie:update_s_matrices_directed_scenarios_ran", early_read is not None,
                    "" if early_read is not None else "directed scenarios did not run")
-    if early_read:
-        # the model's early_read = true variant applies: update_s_safe_refuted is the theorem about this tree
-        pass
 
 
 def run(ctx):
@@ -767,9 +925,14 @@ def run(ctx):
     ctx.trusted_base = [
         "Coq 8.16.1 kernel (coqc); vm_compute for the concrete instances; no native_compute",
         "axioms: none (Print Assumptions: Closed under the global context for every theorem of Properties_C02.v)",
-        "hand-written models coq/SelfCal/TrlModel.v, AutoLoop.v, NullGuards.v, tied to the code by correspondence on every run",
-        "csqrt / cabs are parameters of the TRL model (sq z * sq z = z at the argument used; a total order on moduli)",
-        "the numeric kernel of the Levenberg-Marquardt loop (QR, Jacobian, LU) is an abstract oracle of AutoLoop",
+        "hand-written models coq/SelfCal/TrlModel.v, TrlTermsModel.v, AutoLoop.v, GuardModel.v, DispatchModel.v, tied to the code by correspondence on every run",
+        "csqrt / cabs are parameters of the TRL model (Section variables sq, mag, le_abs: sq z * sq z = z at the argument used; a total order on moduli)",
+        "the numeric kernel of the Levenberg-Marquardt loop (QR, Jacobian, V-matrix update, LU: Section variables solve_x, sumk, step, "
+        "apply_step, normd, normdx of AutoLoop) is an abstract oracle; as total Coq functions they ASSUME that every kernel call returns",
+        "GuardModel: the well-formedness premises (vector lengths = allocation sizes, unknown indices below vn_unknown_parameters) "
+        "are read off the allocation sites, not proved from a model of the add functions",
+        "TRL error terms: that _vnacommon_qrsolve returns the solution of a consistent full-rank system and that vnacal_apply's LU "
+        "solve equals the cofactor formula is C19's subject",
         "OCaml extraction (ExtrOcamlBasic) and ocaml/glue.ml.inc; gcc, ASan/UBSan/LSan; the python measurement oracle lib/selfcal_gen.py",
     ]
     ctx.assumptions = ["exact field arithmetic stands for binary64 arithmetic (rounding is outside every theorem)",
@@ -787,7 +950,7 @@ def run(ctx):
     drv = ctx.ocaml_driver("drv_selfcal")
 
     ctx.log("built; TRL")
-    trl_ok, trl_detail = part_trl(ctx, rec, exe, drv, 12 if quick else 150, 3 if quick else 12)
+    trl_ok, trl_detail = part_trl(ctx, rec, exe, drv, 12 if quick else 150, 3 if quick else 12, wb)
     ctx.log("LM unweighted")
     st_u = part_lm(ctx, rec, exe, None)
     ctx.log("LM weighted", st_u)
@@ -798,6 +961,8 @@ def run(ctx):
     auto_ok = part_auto_tie(ctx, rec, wb, drv, 30 if quick else 300)
     ctx.log("directed")
     part_directed(ctx, rec, exe)
+    ctx.log("guard")
+    guard_ok = part_guard(ctx, rec, wb, drv, 6 if quick else 60)
     ctx.log("histories")
     hist_ok = part_history(ctx, rec, exe, 8 if quick else 48)
     ctx.log("several frequencies")
@@ -805,7 +970,8 @@ def run(ctx):
     ctx.log("dispatch")
     disp_ok = part_dispatch(ctx, rec, wb, drv, 1 if quick else 6)
     ctx.log("done")
-    for name, okx in (("tie:writeback_exact", hist_ok), ("tie:initial_parameter_vector", mf_ok), ("tie:solver_dispatch", disp_ok)):
+    for name, okx in (("tie:writeback_exact", hist_ok), ("tie:initial_parameter_vector", mf_ok), ("tie:solver_dispatch", disp_ok),
+                      ("tie:update_s_matrices_vs_GuardModel", guard_ok)):
         if not okx and not ctx.violations:
             ctx.unproved(name, "correspondence failed", "scenarios of this run")
 
